@@ -74,11 +74,22 @@ def run_property(prop, tier, seed):
             if os.path.getsize(mism + ".died") > 0:
                 ops = [json.loads(x) for x in vlib.read_lines(mism + ".died")]
                 violations.append(("A-%s-died" % info["cfg"], ops, "crate died while replaying a specification case"))
-            for k, l in enumerate(vlib.read_lines(mism)[:3]):
+            taken = 0
+            for k, l in enumerate(vlib.read_lines(mism)):
+                if taken >= 3:
+                    break
                 try:
                     rec = json.loads(l)
                 except ValueError:      # the harness died while writing this record; the died record is the finding
                     continue
+                if rec.get("why", "value") not in reasons:
+                    continue
+                cs = rec.get("case", {})
+                ctag = ("%s:%s" % (cs.get("op"), cs.get("name"))) if cs.get("op") in ("q", "sq") else cs.get("op")
+                if rc.get("tags") is not None and ctag not in rc["tags"] and rec.get("why") != "panic":
+                    cov.setdefault("mismatches_of_other_properties", []).append("A:%s" % ctag)
+                    continue
+                taken += 1
                 ops = [json.loads(x) for x in rec["session"]]
                 violations.append(("A-%s-%d" % (info["cfg"], k), ops,
                                    {"expected": rec["case"].get("exp"), "got": rec["got"]}))
